@@ -24,6 +24,15 @@ CHECKS = {
         "mpu_write(...) graph is executed under schedules TLC draws from the exported task graph (TaskGraph.tla) plus a thread pool. TLC then judges the recorded writer calls with the "
         "property-level spec MPUProp (reject) and compares per-step states and writer calls with the model (drift). The as-found code is refuted by three dedicated configurations.",
    ref="5/C06", note=TB + "a recording PartsWriter stands for the storage; dask graph semantics = run each task once after its dependencies"),
+ "C18": dict(
+   technique="TLA+ interleaving model of the lazy S3 initiation (S3Init) model-checked by TLC incl. liveness; TLC schedules replayed on real threads by a baton scheduler through seams; file sink / limits model (Sink) + trace validation",
+   text="S3Init has one label per shared read/write, lock operation and client call of _ensure_init / initiate / write_part / finalise, for the in-process path and the "
+        "distributed Variable+Lock path (separate copies, or two threads sharing a copy). TLC checks exactly-once initiation, one upload id for all parts, no failing writer, "
+        "lock freedom and termination under weak fairness over all interleavings of 2 writers + finaliser and the whole state space for 3 writers. Every maximal 2-writer schedule of the local path, "
+        "and seeded samples of the distributed and 3-writer schedules, are replayed on the REAL DelayedS3Writer/MultiPartUpload with real threads that only run between seams; TLC "
+        "validates the recorded client calls and outcomes (reject) and that the threads performed exactly the model's operation sequence (drift). The as-found code (no re-check under the lock) is refuted. "
+        "The sequential sink/limits clauses are model-checked over all part orders/sizes/keyword subsets and validated on the real MPUFileSink in a scratch directory.",
+   ref="5/C18", note=TB + "fake boto3 client and fake distributed.Variable/Lock with their documented semantics (no cluster in the sandbox); seams are placed on a harness subclass of MultiPartUpload, not in the repository"),
 }
 
 NOT_YET = "check not built yet (work in progress); see DESIGN.md"
